@@ -24,6 +24,28 @@ impl CertificateAggregatorRequest for Agg {
     }
 }
 
+/// one aggregator for several calls IN FLIGHT at the same time: per hash a list of answers given in turn (the last one
+/// repeats), and one request (the `stall_nth`-th for `stall_on`) that is held until `release`
+struct ScriptedAgg {
+    answers: HashMap<String, Vec<Certificate>>,
+    asked: std::sync::Mutex<HashMap<String, usize>>,
+    stall_on: String,
+    reached: Arc<tokio::sync::Notify>,
+    release: Arc<tokio::sync::Notify>,
+}
+#[async_trait]
+impl CertificateAggregatorRequest for ScriptedAgg {
+    async fn list_latest(&self) -> MithrilResult<Vec<MithrilCertificateListItem>> { Ok(vec![]) }
+    async fn get_by_hash(&self, hash: &str) -> MithrilResult<Option<MithrilCertificate>> {
+        let nth = { let mut a = self.asked.lock().unwrap(); let n = a.entry(hash.to_string()).or_insert(0); *n += 1; *n - 1 };
+        if hash == self.stall_on && nth == 0 {
+            self.reached.notify_one();
+            self.release.notified().await;
+        }
+        Ok(match self.answers.get(hash) { Some(l) if !l.is_empty() => Some(l[nth.min(l.len() - 1)].clone().try_into()?), _ => None })
+    }
+}
+
 struct Ids(BTreeMap<String, usize>);
 impl Ids {
     fn id(&mut self, s: &str) -> usize {
@@ -298,6 +320,46 @@ fn main() {
                     sessions.push(("session-poison", vec![("rejected-head", f.clone(), s1.clone()), ("chained-to-head", f2.clone(), s2.clone())], false));
                     sessions.push(("session-poison-then-honest", vec![("rejected-head", f.clone(), s1.clone()), ("honest", certs[0].clone(), honest.clone()), ("chained-to-head", f2.clone(), s2.clone())], false));
                     sessions.push(("session-honest-poison-direct", vec![("honest", certs[0].clone(), honest.clone()), ("rejected-head", f.clone(), s1), ("head-again", f.clone(), s2.clone()), ("chained-to-head", f2.clone(), s2)], false));
+                }
+                // two calls IN FLIGHT on ONE client: the provider holds back one answer of the call that is going to fail
+                // (right after the adversary head has been validated against the altered boundary certificate and
+                // recorded), and answers a second call — the adversary certificate chained to that head — meanwhile.
+                // Whatever the schedule, an accepted start must be validly chained to genesis.
+                if let (Some((f, f2, p_alt, p_cert)), true) = (&poison, ci == 0 && wf.is_none()) {
+                    let mut answers: HashMap<String, Vec<Certificate>> = honest.iter().map(|(k, v)| (k.clone(), vec![v.clone()])).collect();
+                    answers.insert(p_cert.hash.clone(), vec![p_alt.clone(), p_cert.clone()]); // call 1 gets the altered copy, later requests the genuine one
+                    answers.insert(f.hash.clone(), vec![f.clone()]);
+                    answers.insert(f2.hash.clone(), vec![f2.clone()]);
+                    let reached = Arc::new(tokio::sync::Notify::new());
+                    let release = Arc::new(tokio::sync::Notify::new());
+                    let agg = ScriptedAgg { answers, asked: std::sync::Mutex::new(HashMap::new()), stall_on: p_alt.previous_hash.clone(), reached: reached.clone(), release: release.clone() };
+                    let conc_cache = Arc::new(MemoryCertificateVerifierCache::new(chrono::TimeDelta::hours(1)));
+                    let v = Arc::new(MithrilCertificateVerifier::new(Arc::new(agg), &gvk_hex, FeedbackSender::new(&[]), Some(conc_cache.clone()), logger.clone()).unwrap());
+                    let m1: MithrilCertificate = f.clone().try_into().unwrap();
+                    let m2: MithrilCertificate = f2.clone().try_into().unwrap();
+                    let (r1, r2, waited) = rt.block_on(async {
+                        let v1 = v.clone();
+                        let h1 = tokio::spawn(async move { v1.verify_chain(&m1).await.is_ok() });
+                        let got = tokio::time::timeout(std::time::Duration::from_secs(20), reached.notified()).await.is_ok();
+                        let v2 = v.clone();
+                        let mut h2 = tokio::spawn(async move { v2.verify_chain(&m2).await.is_ok() });
+                        // call 2 either finishes while call 1 is held (it ran concurrently) or waits for it: release call 1 after a while
+                        let early = tokio::time::timeout(std::time::Duration::from_millis(1500), &mut h2).await;
+                        release.notify_one();
+                        let r2 = match early { Ok(r) => r.unwrap_or(false), Err(_) => h2.await.unwrap_or(false) };
+                        let r1 = h1.await.unwrap_or(false);
+                        (r1, r2, got)
+                    });
+                    let mut world: HashMap<String, Certificate> = honest.clone();
+                    world.insert(f.hash.clone(), f.clone());
+                    world.insert(f2.hash.clone(), f2.clone());
+                    let bad2 = r2 && spec_valid(f2, &world, &gv, 2 * world.len() + 6).is_err();
+                    let bad1 = r1 && spec_valid(f, &world, &gv, 2 * world.len() + 6).is_err();
+                    sink.witness("C03-client-concurrent-validations", bad1 || bad2, &format!("one client, cold cache; call 1 (adversary head F over an altered copy of the boundary certificate, one aggregator answer held back: reached={}) -> {}; call 2 started meanwhile (adversary certificate chained to F, genuine answers only) -> {}", waited, if r1 { "ACCEPTED" } else { "rejected" }, if r2 { "ACCEPTED" } else { "rejected" }));
+                    if bad1 || bad2 {
+                        let i = sink.next_index();
+                        sink.sfail(i, "invalid-chain-concurrent", &format!("two verify_chain calls in flight on one client: call {} accepted a certificate that is not validly chained to genesis", if bad2 { 2 } else { 1 }), "concurrent session: F over P' (answer for P'.previous held back) || F2 chained to F");
+                    }
                 }
                 // expiry: after an honest validation, the same chain with the certificate just above the genesis one withheld. A live
                 // cache skips it (accepted); a cache whose entries expire at once has to download it (rejected).
